@@ -539,6 +539,10 @@ func (x *CommonLex) ConstructToken(
 		}
 	}
 	var b bytes.Buffer
+	if c == xutils.ERR {
+		// eg invalid UTF-8 directly after the opening quote of a literal
+		x.SetError(fmt.Errorf("Invalid UTF-8 input"))
+	}
 	add(&b, c)
 
 	for {
